@@ -1531,3 +1531,5 @@ V("r4-c16-isclique-matrix-block-kw", "C16", "silent", UT, "    subgraph = A[S, :
   what="the same by keyword")
 V("r4-c16-isclique-matrix-block-other-order", "C16", "fire", UT, "    subgraph = A[S, :][:, S]\n    subgraph = skeleton(subgraph)", "    T = S[::-1]\n    subgraph = matrix_block(A, S, T)\n    subgraph = skeleton(subgraph)",
   rule=None, what="rows and columns in different orders: A + A.T no longer pairs (i, j) with (j, i)")
+V("t-c11-inverse-relabelling-consistent", "C11", "silent", GE, "    permutation = rng.permutation(p)\n    # Note the actual topological ordering is the \"conjugate\" of permutation eg. [3,1,2] -> [2,3,1]\n    if return_ordering:\n        return (W[permutation, :][:, permutation], np.argsort(permutation))\n    else:\n        return W[permutation, :][:, permutation]",
+  "    permutation = rng.permutation(p)\n    permuted = np.zeros_like(W)\n    permuted[np.ix_(permutation, permutation)] = W\n    if return_ordering:\n        return (permuted, permutation)\n    else:\n        return permuted", what="graph relabelled with the inverse permutation, and the permutation returned as its ordering: consistent")
